@@ -475,6 +475,13 @@ func generateStatFor(rule *Rule) (*standaloneStatistic, error) {
 		}
 	}
 	err := base.CheckValidityForReuseStatistic(sampleCount, intervalInMs, config.GlobalStatisticSampleCountTotal(), config.GlobalStatisticIntervalMsTotal())
+	if err == nil && rule.TokenCalculateStrategy == WarmUp && intervalInMs+config.GlobalStatisticBucketLengthInMs() > config.GlobalStatisticIntervalMsTotal() {
+		// A warm-up rule reads the pass count of the PREVIOUS interval. An interval as long as the whole
+		// global statistic leaves no room for it there: the first write of a new interval - an Exit is
+		// enough - takes the slot of the oldest bucket of the previous one. Such a rule gets a statistic
+		// of its own (which keeps the previous window, see below).
+		err = base.GlobalStatisticNonReusableError
+	}
 	if err == nil {
 		// global statistic reusable
 		readStat, e := resNode.GenerateReadStat(sampleCount, intervalInMs)
